@@ -18,6 +18,7 @@ func runC04(c *Ctx) {
 	ruleWriteIsSerialized(c)
 	ruleLineSanitised(c)
 	ruleEmissionGrammar(c, "R04.d", false)
+	ruleNoWriteAfterFailedWrite(c, "R04.e")
 }
 
 func ruleSingleWriteSite(c *Ctx) {
@@ -448,4 +449,83 @@ func payloadValidated(facts []Atom, field string) bool {
 		}
 	}
 	return absent['\r'] && absent['\n']
+}
+
+// ruleNoWriteAfterFailedWrite: the connection loop logs a failed reply write and goes on (so
+// that requests already received are still executed). That is harmless only because a write
+// on a TCP connection fails for good: nothing written later can reach the client. A write
+// deadline changes this — a write can time out after part of the frame went out, and the next
+// reply is then appended to the truncated frame. So: either no deadline that covers writes is
+// ever armed on a client connection, or the failed-write edge leaves the loop.
+func ruleNoWriteAfterFailedWrite(c *Ctx, rid string) {
+	c.rule(rid, "no SetDeadline/SetWriteDeadline is called on a client connection anywhere in the framework while the request loop continues after a failed reply write (a timed-out partial write followed by further replies corrupts the frame stream)")
+	var sites []ssa.Instruction
+	for _, fn := range c.P.RepoFuncs(pkgRedis) {
+		if !inFramework(fn) {
+			continue
+		}
+		allInstrs(fn, func(ins ssa.Instruction) {
+			cc := callCommon(ins)
+			if cc == nil {
+				return
+			}
+			n := calleeName(cc)
+			if strings.HasSuffix(n, ".SetDeadline") || strings.HasSuffix(n, ".SetWriteDeadline") {
+				recv := cc.Value
+				if !cc.IsInvoke() && len(cc.Args) > 0 {
+					recv = cc.Args[0]
+				}
+				if recv != nil && (isConnLikeType(recv.Type()) || isConnLikeType(strip(recv).Type())) {
+					sites = append(sites, ins)
+				}
+			}
+		})
+	}
+	if len(sites) == 0 {
+		c.ok(rid, "no-write-deadline", "", "no deadline covering writes is armed on client connections: a failed write is final")
+		return
+	}
+	// deadlines exist: the loop must not write again after a failed write
+	continues := false
+	for _, cl := range c.P.connLoops() {
+		if cl.Loop == nil {
+			continue
+		}
+		for _, r := range cl.Resp {
+			for _, b := range cl.Loop.sortedBlocks() {
+				for idx, s := range b.Succs {
+					if deadEdge(b, idx) || !cl.Loop.Blocks[s] {
+						continue
+					}
+					for _, at := range edgeOnly(b, idx) {
+						if at.Kind == "nil" && !at.Pos && at.X == ssa.Value(r) {
+							if reachableBlocks(s, nil)[cl.Loop.Header] {
+								continues = true
+							}
+						}
+					}
+				}
+			}
+			// the error is not even tested: the loop certainly continues
+			tested := false
+			if r.Referrers() != nil {
+				for _, u := range *r.Referrers() {
+					if bo, ok := u.(*ssa.BinOp); ok && isNilCompare(bo, r) {
+						tested = true
+					}
+				}
+			}
+			if !tested {
+				continues = true
+			}
+		}
+	}
+	for i, s := range sites {
+		key := fmt.Sprintf("%s/write-deadline#%d", c.P.key(s.Parent()), i+1)
+		if continues {
+			c.bad(rid, key, c.P.instrPos(s), "a deadline that covers writes is armed on the client connection, and the request loop keeps replying after a failed write: a reply cut by the timeout is followed by further frames")
+		} else {
+			c.ok(rid, key, c.P.instrPos(s), "write deadline armed; a failed reply write ends the request loop")
+		}
+	}
 }
